@@ -872,6 +872,163 @@ def comp_traitprov(prop, tier, comp, work):
 
 
 # --------------------------------------------------------------------------------------------
+# R-MAYBE / R-DIV (C15) on the instantiation driver drivers/maybe_inst.cpp (CFG guards):
+#  R-MAYBE: every dereference (*m, m->, m.value(), unwrap(m)) of a maybe-typed expression is reached only through
+#           the true edge of a truth test of the same expression (static_cast<bool>(m), m, has_value(m), m.has_value(),
+#           or a bool local initialised from one of these); decltype/sizeof operands are not dereferences.
+#  R-DIV:   every integer / and % in index/ and view/ has a divisor that is a non-zero literal, is guarded against zero,
+#           or is given a role in tools/roles.json (source extents >= 1 ...), whose supporting guard is re-checked.
+# --------------------------------------------------------------------------------------------
+def split_top(c, op):
+    """split '(A op B)' at top level; returns [c] if c is not such an expression"""
+    c = c.strip()
+    if not (c.startswith("(") and c.endswith(")")):
+        return [c]
+    depth = 0
+    inner = c[1:-1]
+    parts, cur, i = [], "", 0
+    while i < len(inner):
+        ch = inner[i]
+        if ch in "([{<":
+            depth += 1 if ch != "<" else 0
+        elif ch in ")]}":
+            depth -= 1
+        if depth < 0:
+            return [c]
+        if depth == 0 and inner.startswith(" " + op + " ", i):
+            parts.append(cur); cur = ""; i += len(op) + 2; continue
+        cur += ch; i += 1
+    parts.append(cur)
+    return parts if len(parts) > 1 else [c]
+
+
+def expand_guards(gs):
+    """a true conjunction makes every conjunct true, a false disjunction makes every disjunct false"""
+    out = []
+    todo = [(g["cond"], g["pol"]) for g in gs if "cond" in g]
+    while todo:
+        c, pol = todo.pop()
+        parts = split_top(c, "&&") if pol == 1 else split_top(c, "||")
+        if len(parts) > 1:
+            todo += [(p_, pol) for p_ in parts]
+        else:
+            out.append(dict(cond=c, pol=pol))
+    return out
+
+
+def is_maybe_type(t):
+    return bool(re.match(r"(const )?(std::optional<|nmtools::utl::maybe<|optional<|maybe<)", t))
+
+def truth_subject(c, locs):
+    c = c.replace(" ", "")
+    for _ in range(3):
+        m = re.fullmatch(r"%(\w+)", c)
+        if m and m.group(1) in locs:
+            c = locs[m.group(1)].replace(" ", ""); continue
+        m = re.fullmatch(r"bool\((.+)\)", c) or re.fullmatch(r"(?:nmtools::)?has_value\((.+)\)", c) or re.fullmatch(r"(.+)\.has_value\(\)", c)
+        if m:
+            c = m.group(1); continue
+        break
+    return c
+
+def rule_maybe(rows, prop):
+    tbl = load_table("roles.json")
+    findings, samples, n = [], [], 0
+    seen = set()
+    for r in rows:
+        if "fn" not in r or not r.get("cfg"):
+            continue
+        if re.fullmatch(r"nmtools::unwrap", r["fn"]):
+            continue   # the primitive itself: its call sites are the dereferences
+        locs, _ = single_def_locals(r)
+        for f in r["facts"]:
+            if f["k"] != "deref" or not is_maybe_type(f["c"]):
+                continue
+            key = (r["file"], f.get("line"), f.get("col"), f["a"], r.get("sig", "")[:400])
+            if key in seen:
+                continue
+            seen.add(key); n += 1
+            x = f["a"].replace(" ", "")
+            ok = False
+            for g in expand_guards(f.get("g", [])):
+                c = g["cond"].replace(" ", "")
+                if g["pol"] == 1 and truth_subject(c, locs) == x:
+                    ok = True
+                m = re.fullmatch(r"\(!(.+)\)", c)
+                if g["pol"] == 0 and m and truth_subject(m.group(1), locs) == x:
+                    ok = True
+            site = "%s:%s" % (relfile(r["file"]), r["fn"].split("::")[-1])
+            if not ok and site + ":" + f["a"] in tbl["maybe_exempt"]:
+                ok = True
+            if not ok:
+                findings.append(finding("R-MAYBE", prop, r, "%s%s" % (f["b"], f["a"]), "maybe-typed %s is dereferenced (%s) without a dominating truth test on it; guards seen: %s" % (f["a"], f["b"], [(g.get("cond"), g.get("pol")) for g in f.get("g", [])][:4]), f.get("line")))
+            elif len(samples) < 4:
+                samples.append("R-MAYBE %s: %s%s guarded" % (site, f["b"], f["a"]))
+    return findings, n, samples
+
+
+def rule_div(rows, prop):
+    tbl = load_table("roles.json")
+    findings, samples = [], []
+    sites = {}
+    for r in rows:
+        if "fn" not in r or not r.get("cfg"):
+            continue
+        if "/include/nmtools/array/index/" not in r["file"] and "/include/nmtools/array/view/" not in r["file"]:
+            continue
+        locs, _ = single_def_locals(r)
+        for f in r["facts"]:
+            if f["k"] != "div":
+                continue
+            key = (relfile(r["file"]), f.get("line"), f["c"])
+            if key in sites:
+                continue
+            d = f["c"].replace(" ", "")
+            ok = None
+            if re.fullmatch(r"\d+", d) and int(d) != 0:
+                ok = "non-zero literal"
+            for g in expand_guards(f.get("g", [])):
+                c = g["cond"].replace(" ", "")
+                if (g["pol"] == 1 and c in ("(%s!=0)" % d, "(%s>0)" % d, "(0<%s)" % d, d, "bool(%s)" % d)) or (g["pol"] == 0 and c in ("(%s==0)" % d, "(!%s)" % d, "(%s<=0)" % d)):
+                    ok = "guarded by " + g["cond"]
+            if ok is None:
+                fnshort = r["fn"].split("::(lambda")[0]
+                role = tbl["divisor_roles"].get(fnshort, {}).get(f["c"])
+                if role:
+                    sup = role.get("requires_return_guard")
+                    if sup:
+                        has = any(x["k"] == "return" and "Nothing" in x["a"] and any(g["pol"] == 1 and sup.replace(" ", "") in [p_.replace(" ", "") for p_ in split_top(g["cond"], "||")] for g in expand_guards(x.get("g", []))) for x in r["facts"])
+                        if has:
+                            ok = "role: " + role["reason"]
+                        else:
+                            findings.append(finding("R-DIV", prop, r, "%s %s" % (f["a"], f["c"]), "divisor %s relies on the validation '%s -> return Nothing', which is no longer present" % (f["c"], sup), f.get("line")))
+                            sites[key] = "violation"; continue
+                    else:
+                        ok = "role: " + role["reason"]
+            if ok is None:
+                findings.append(finding("R-DIV", prop, r, "%s %s" % (f["a"], f["c"]), "integer division by %s: divisor is neither a non-zero literal, nor guarded against zero, nor listed with a role in tools/roles.json" % f["c"], f.get("line")))
+                sites[key] = "violation"
+            else:
+                sites[key] = ok
+                if len(samples) < 4:
+                    samples.append("R-DIV %s:%s %s %s -- %s" % (key[0], key[1], f["a"], f["c"], ok))
+    return findings, len(sites), samples
+
+
+def comp_maybe_div(prop, tier, comp, work):
+    t0 = time.time()
+    tu = os.path.join(VERIF, "drivers", "maybe_inst.cpp")
+    rows, err, cmd = run_nmlint(tu, filters=["/include/nmtools/"], inst=True, cfg=True)
+    out = dict(broken=[], units=1, functions=len(rows), cmd=cmd)
+    if err:
+        out["broken"].append(err); return out
+    f1, n1, s1 = rule_maybe(rows, prop)
+    f2, n2, s2 = rule_div(rows, prop)
+    out.update(findings=f1 + f2, instances={"R-MAYBE": n1, "R-DIV": n2}, evaluations=n1 + n2, distinct_nontrivial=n1 + n2 - len(f1 + f2), samples=s1 + s2, wall_s=round(time.time() - t0, 2))
+    return out
+
+
+# --------------------------------------------------------------------------------------------
 # driver
 # --------------------------------------------------------------------------------------------
 def run(prop, tier, spec, jobs=16):
@@ -911,4 +1068,4 @@ def comp_fwd_array(prop, tier, comp, work):
     return out
 
 
-RULES = {"R-FWD.array": comp_fwd_array, "R-FWD.functional": comp_fwd_functional, "R-UFUNC": comp_ufunc, "R-KSIB": comp_ksib, "R-SIMD": comp_simd, "R-CONSTBRANCH": comp_constbranch, "R-TRAITPROV": comp_traitprov}
+RULES = {"R-FWD.array": comp_fwd_array, "R-FWD.functional": comp_fwd_functional, "R-UFUNC": comp_ufunc, "R-KSIB": comp_ksib, "R-SIMD": comp_simd, "R-CONSTBRANCH": comp_constbranch, "R-TRAITPROV": comp_traitprov, "R-MAYBE-DIV": comp_maybe_div}
